@@ -100,6 +100,13 @@ RepliesOk(M, e, k, acc) ==
        RepliesOk(Apply(M, e.peer, it), e, k + 1,
                  acc /\ k <= Len(e.replies) /\ e.replies[k][1] = it.uid /\ (e.replies[k][2] = 2) = ok)
 TableOf(st) == {<<t.uid, t.owner>> : t \in SeqSet(st.tasks)}
+(* what a /queue listing says about a task is the task as last accepted (here: its DTSTART), not an earlier version of it *)
+LastAdd(ev, i, u) == LET A == {p \in AddIdx(ev, u) : p[1] < i} IN CHOOSE p \in A : \A x \in A : x[1] < p[1] \/ (x[1] = p[1] /\ x[2] <= p[2])
+ShownAsAccepted(ev, i) ==
+  Has(ev[i], "starts") =>
+    \A x \in SeqSet(ev[i].starts) :
+      LET A == {p \in AddIdx(ev, x[1]) : p[1] < i} IN
+      A # {} => LET p == LastAdd(ev, i, x[1]) IN Has(ev[p[1]].items[p[2]], "start") => x[2] = ev[p[1]].items[p[2]].start
 RECURSIVE MapRun(_, _, _, _)
 (* walks the run; everHad = users that ever had a successful change (they own a queue file) *)
 MapRun(ev, i, M, everHad) ==
@@ -113,7 +120,7 @@ MapRun(ev, i, M, everHad) ==
          /\ MapRun(ev, i + 1, M2, IF M2 # M THEN everHad \cup {e.peer} ELSE everHad)
     ELSE IF e.e = "Http"
     THEN /\ (e.what = "sched" => e.status = 200 /\ SeqSet(e.uids) = {m[1] : m \in {x \in M : x[2] = e.peer}})
-         /\ (e.what = "queue" => IF e.peer \in everHad THEN e.status = 200 /\ e.complete /\ SeqSet(e.uids) = {m[1] : m \in {x \in M : x[2] = e.peer}}
+         /\ (e.what = "queue" => IF e.peer \in everHad THEN e.status = 200 /\ e.complete /\ SeqSet(e.uids) = {m[1] : m \in {x \in M : x[2] = e.peer}} /\ ShownAsAccepted(ev, i)
                                  ELSE e.status = 404)
          (* asking for another user's view: refused, or answered with the caller's own view - never the other user's *)
          /\ (e.what = "other" => (e.status = 403 \/ SeqSet(e.uids) \subseteq {m[1] : m \in {x \in M : x[2] = e.peer}}))
